@@ -75,8 +75,40 @@ def _scalar_values(rng, n, kind):
     raise ValueError(kind)
 
 
-def _numpy_decl(rng, n):
-    """(expression text, exact expected list) — expectations computed without numpy"""
+def _numpy_fine_decl(rng, n):
+    """numpy expressions whose values need more than 12 decimals (tiny magnitudes, long mantissas, fractional
+    steps); the expectation is what the expression denotes: evaluated here with numpy, element by element"""
+    import numpy
+
+    n = max(2, n)
+    style = rng.choice(["logspace_tiny", "geomspace_tiny", "linspace_long", "arange_frac", "linspace_tiny", "logspace_frac"])
+    if style == "logspace_tiny":
+        a = rng.randrange(-16, -12)
+        expr = f"numpy.logspace({a}, {a + n - 1}, {n})"
+    elif style == "geomspace_tiny":
+        a = rng.choice(["1e-15", "2.5e-14", "3e-16"])
+        expr = f"numpy.geomspace({a}, {a}*{10 ** (n - 1)}, {n})"
+    elif style == "linspace_long":
+        a, b = rng.choice([(0.1, 0.7), (0.05, 0.95), (1 / 3, 2 / 3), (0.123456789012345, 0.987654321098765)])
+        expr = f"numpy.linspace({a!r}, {b!r}, {n})"
+    elif style == "arange_frac":
+        a, st = rng.choice([(0.1, 0.1), (0.05, 0.15), (1e-13, 3e-13), (0.7, 0.07)])
+        expr = f"numpy.arange({n}) * {st!r} + {a!r}"
+    elif style == "linspace_tiny":
+        a = rng.choice([1e-14, 2.5e-13, 7e-16])
+        expr = f"numpy.linspace({a!r}, {3 * a!r}, {n})"
+    else:
+        expr = f"numpy.logspace(-0.5, 0.5, {n})"
+    vals = [float(v) for v in eval(expr, {"numpy": numpy})]  # noqa: S307
+    return expr, vals
+
+
+def _numpy_decl(rng, n, fine=None):
+    """(expression text, exact expected list)"""
+    if fine or (fine is None and rng.random() < 0.4):
+        expr, vals = _numpy_fine_decl(rng, n)
+        if len(set(vals)) == len(vals):
+            return expr, vals
     style = rng.choice(["arange", "linspace", "array", "arange_f"])
     if style == "arange":
         a, s = rng.randrange(0, 9), rng.randrange(1, 4)
@@ -138,7 +170,7 @@ def gen_models(rng, flavour):
         used.add((g, n))
         args = {}
         for a in rng.sample(ARG_NAMES, rng.choice([1, 2, 3])):
-            r = rng.random() if flavour != "vectors" else rng.choice([0.1, 0.8, 0.8])
+            r = rng.random() if flavour not in ("vectors", "fine") else rng.choice([0.1, 0.8, 0.8]) if flavour == "vectors" else 0.1
             args[a] = (rng.randrange(100) if r < 0.5 else rng.randrange(100) / 4 if r < 0.7
                        else [rng.randrange(9), rng.randrange(9)] if r < 0.9 else "word")
         models.append({"group": g, "name": n, "args": args})
@@ -179,7 +211,7 @@ def gen_params(rng, models, mode, flavour, max_runs):
     params = []
     budget = max_runs
     for key in chosen:
-        enabled = rng.random() < (0.8 if flavour != "vectors" else 1.0)
+        enabled = rng.random() < (0.8 if flavour not in ("vectors", "fine") else 1.0)
         if mode == "custom":
             if key.startswith("detector."):
                 params.append({"key": key, "decl": "_", "enabled": enabled, "width": None})
@@ -204,8 +236,8 @@ def gen_params(rng, models, mode, flavour, max_runs):
         elif isinstance(default, str):
             vals = _scalar_values(rng, n, "str")
             params.append({"key": key, "decl": vals, "expect": vals, "enabled": enabled, "multi": False})
-        elif rng.random() < 0.3:
-            expr, vals = _numpy_decl(rng, n)
+        elif rng.random() < (0.3 if flavour != "fine" else 1.0):
+            expr, vals = _numpy_decl(rng, n, fine=True if flavour == "fine" else None)
             params.append({"key": key, "decl": expr, "expect": vals, "enabled": enabled, "multi": False})
         else:
             vals = _scalar_values(rng, n, rng.choice(["int", "int", "float", "mixed"]))
@@ -234,7 +266,7 @@ def gen_table(rng, params):
 def gen_case(rng, mode=None, with_dask=None, flavour=None, max_runs=16):
     mode = mode or rng.choice(["product", "product", "sequential", "custom"])
     if flavour is None:
-        flavour = rng.choice(["plain", "plain", "vectors", "two_models_same_arg", "same_model_two_groups", "field_vs_arg"])
+        flavour = rng.choice(["plain", "fine", "vectors", "two_models_same_arg", "same_model_two_groups", "field_vs_arg"])
     models = gen_models(rng, flavour)
     params = gen_params(rng, models, mode, flavour, max_runs)
     case = {
@@ -571,23 +603,22 @@ def sort_entries(entries):
 
 # ------------------------------------------------------------------ the property, evaluated on the implementation
 def failure_class(case, parallel):
-    """stable key of the input class a failing case belongs to (most specific known pattern first)"""
+    """stable key of the input class a failing case belongs to: mode, path and the special patterns it contains"""
     en = _unique_enabled(case)
     keys = [p["key"] for p in en]
     last = lambda k: k.split(".")[-1]  # noqa: E731
+    tags = []
     det = {last(k) for k in keys if k.startswith("detector.")}
     if any(k.startswith("pipeline.") and last(k) in det for k in keys):
-        return "dim-names:detector-field-vs-model-argument"
+        tags.append("names=detector-field-vs-model-argument")
     pk = [k.split(".") for k in keys if k.startswith("pipeline.")]
     if any(a[2] == b[2] and a[4] == b[4] and a[1] != b[1] for a, b in itertools.combinations(pk, 2)):
-        return "dim-names:same-model-name-in-two-groups"
-    if case["mode"] == "sequential" and parallel:
-        return "sequential-mode×with_dask:create_params-zips"
+        tags.append("names=same-model-name-in-two-groups")
     widths = [(len(p["expect"][0]) if case["mode"] != "custom" else p["width"])
               for p in en if (p.get("multi") or p.get("width"))]
-    if not parallel and case["mode"] in ("custom", "sequential") and len(set(widths)) > 1:
-        return "id-modes:vector-parameters-of-different-length:dim_0"
-    return f"{case['mode']}:{'dask' if parallel else 'seq'}"
+    if len(set(widths)) > 1:
+        tags.append("vector-parameters-of-different-length")
+    return ":".join([case["mode"], "dask" if parallel else "seq"] + tags)
 
 
 def property_predicate(case, impl, parallel):
@@ -646,11 +677,6 @@ def property_predicate(case, impl, parallel):
 
 # ------------------------------------------------------------------ check body
 def stable_key(why_key: str) -> str:
-    """known input classes are one finding each whatever the symptom (crash / count / label)"""
-    for cls in ("dim-names:detector-field-vs-model-argument", "dim-names:same-model-name-in-two-groups",
-                "sequential-mode×with_dask:create_params-zips", "id-modes:vector-parameters-of-different-length:dim_0"):
-        if why_key.startswith(cls):
-            return cls
     return why_key
 
 
@@ -697,9 +723,9 @@ def body(ck: common.Check):
     # directed stream: every mode × path × collision flavour at least once
     for mode in ("product", "sequential", "custom"):
         for wd in (False, True):
-            for flav in ("plain", "vectors", "two_models_same_arg", "same_model_two_groups", "field_vs_arg"):
+            for flav in ("plain", "fine", "vectors", "two_models_same_arg", "same_model_two_groups", "field_vs_arg"):
                 cases.append(("directed", gen_case(rng, mode=mode, with_dask=wd, flavour=flav, max_runs=8)))
-    for _ in range(40 if quick else 600):
+    for _ in range(40 if quick else 1800):
         cases.append(("random", gen_case(rng, max_runs=12 if quick else 36)))
     answers = LeanDriver("C05").batch([lean_request(c) for _, c in cases])
     for (stream, case), ans in zip(cases, answers):
@@ -718,7 +744,8 @@ def body(ck: common.Check):
         ck.count("params_numpy_expr", sum(1 for p in case["params"] if isinstance(p.get("decl"), str) and "numpy" in p["decl"]))
         ck.count("params_detector_field", sum(1 for p in case["params"] if p["key"].startswith("detector.")))
     ck.rule = ("1-4 parameters (keys pairwise different) over stamp-probe arguments and detector fields; scalar int/float/"
-               "mixed/string lists, numpy expressions with independently computed expectations, 1-D and 2-D vector values, "
+               "mixed/string lists, numpy expressions (integer / dyadic with independently computed expectations; tiny magnitudes, long "
+               "mantissas and fractional steps evaluated with numpy in the harness, compared bit for bit), 1-D and 2-D vector values, "
                "enabled/disabled mix; product / sequential / custom (npy and txt tables, extra unused columns); sequential "
                "path and dask path (synchronous scheduler); collision flavours: two models sharing an argument name, one "
                "model name in two groups, detector field vs model argument; non-trivial = at least two runs; distinct by "
